@@ -50,6 +50,8 @@ def get_typestate(ctx, exclude=(("f", "close_reason"),), tag="main", jobs=None):
     """typestate fixpoint for the current tree; cached in-process and on disk (keyed by the facts
     file = content hash of /repo's sources, and by the analysis code)"""
     prog = ctx.prog
+    if os.environ.get("HOOT_DEEP") == "1":
+        tag = tag + "deep"          # the thorough tier unrolls deeper: its fixpoint is computed and cached separately
     key = (prog.path, tag)
     if key in _TS:
         return _TS[key]
